@@ -39,6 +39,8 @@ type Frame struct {
 	recovered bool   // a deferred call recovered a panic in this frame
 	isDeferred bool  // frame runs a deferred function (recover() legal)
 	fuel int
+	initPkg   *ssa.Package
+	initStart int
 }
 
 // NativeK is an engine-implemented continuation (e.g. the sort model) that can
